@@ -46,6 +46,9 @@ func c07Names() []string {
 	ns := c07Strings([]string{"a", ".", "/", "\\", "\x00", " "}, 4)
 	a254 := strings.Repeat("a", 254)
 	ns = append(ns, a254, a254+"a", a254+"aa", a254+"/", "a/..", "..\\a", ".. ", "\xc3\xa9", "a\x00/..", "../../etc", "e/../..", "...", "....")
+	// the limit is in bytes, not characters: multi-byte names around it
+	e2 := "\xc3\xa9" // 2 bytes, 1 rune
+	ns = append(ns, strings.Repeat(e2, 127)+"a", strings.Repeat(e2, 128), strings.Repeat("\xe2\x82\xac", 86), strings.Repeat("\xf0\x9f\x98\x80", 64), strings.Repeat("\xff", 256))
 	return ns
 }
 
@@ -277,7 +280,7 @@ func init() {
 	vRegister(&vCheck{
 		id: "C07", level: "exploration", flavour: "vtime",
 		shards:      func(string) int { return 16 },
-		rule:        "bounded-exhaustive: every string of length <=4 over {a . / \\ NUL space} (1555) plus 13 specials (254/255/256-byte names, '..\\a', UTF-8, NUL-then-traversal) as the name in LOOKUP, CREATE (UNCHECKED and EXCLUSIVE), MKDIR, SYMLINK, MKNOD, REMOVE, RMDIR, RENAME (each position), LINK, from three prior states (root handle, handle of /d/e, handle of a directory renamed after the handle was issued; quick uses root for all procedures and the other two for LOOKUP/CREATE/RENAME-to); every string of length <=5 over {a . /} (364) plus 8 specials as the SYMLINK target and as the target of a link planted in the backend and read with READLINK; every such string and name as the MNT dirpath. Each case on a fresh instance. Oracle: each path in the recording backend's log of the request is absolute, equals path.Clean of itself, and is the handle's path or that path plus the one validated component; no NUL reaches the backend; no created link is absolute or has a '..' component; READLINK never returns a relative target with '..'.",
+		rule:        "bounded-exhaustive: every string of length <=4 over {a . / \\ NUL space} (1555) plus 18 specials (254/255/256-byte names in ASCII, in 2-, 3- and 4-byte UTF-8 and in invalid UTF-8, '..\\a', NUL-then-traversal) as the name in LOOKUP, CREATE (UNCHECKED and EXCLUSIVE), MKDIR, SYMLINK, MKNOD, REMOVE, RMDIR, RENAME (each position), LINK, from three prior states (root handle, handle of /d/e, handle of a directory renamed after the handle was issued; quick uses root for all procedures and the other two for LOOKUP/CREATE/RENAME-to); every string of length <=5 over {a . /} (364) plus 8 specials as the SYMLINK target and as the target of a link planted in the backend and read with READLINK; every such string and name as the MNT dirpath. Each case on a fresh instance. Oracle: each path in the recording backend's log of the request is absolute, equals path.Clean of itself, and is the handle's path or that path plus the one validated component; no NUL reaches the backend; no created link is absolute or has a '..' component; READLINK never returns a relative target with '..'.",
 		assumptions: []string{"for MNT (no handle involved) a backend path must be absolute and normalized", "random long strings of the property's quantifier are replaced by boundary-length strings (254..256, 8192, 8193)"},
 		run: func(c *vCtx) {
 			names := c07Names()
